@@ -96,6 +96,8 @@ def run_config(cfg):
     fns = []
     for i in range(depth_total):
         g = {"__builtins__": __builtins__, "design_matrices": design_matrices, "_holder": holder}
+        if role == "bqarg" and name.strip() != name:  # the name without its outer spaces is defined everywhere: it must not be used
+            g[name.strip()] = 66.0
         if role == "dotarg":  # an object whose attribute spells the rest of the name: a dotted *argument* is a plain key, not attribute access
             g[name.split(".")[0]] = types.SimpleNamespace(**{name.split(".")[1]: 77.0})
         lines = [f"def f{i}(nxt):"]
@@ -147,7 +149,7 @@ def configs():
     scopes4 = ["data", "local", "global", "extra"]
     subsets = [list(c) for n in range(5) for c in itertools.combinations(scopes4, n)]
     for k in range(4):
-        for name in ("wz", "scale", "Sum"):
+        for name in ("wz", "scale", "Sum", "abs"):  # 'abs' is a Python builtin: it is NOT one of the five scopes
             for sub in subsets:
                 out.append({"role": "arg", "name": name, "k": k, "subset": sub})
                 if any(s in sub for s in ("local", "global", "extra")):
@@ -164,6 +166,8 @@ def configs():
         subq = [list(c) for n in range(4) for c in itertools.combinations(["data", "global", "extra"], n)]
         for sub in subq:
             out.append({"role": "bqarg", "name": "my var", "k": k, "subset": sub})
+            out.append({"role": "bqarg", "name": "wz ", "k": k, "subset": sub})  # the trailing space is part of the name
+            out.append({"role": "bqarg", "name": " wz", "k": k, "subset": sub})
             out.append({"role": "dotarg", "name": "ob.w", "k": k, "subset": sub})
     return out
 
